@@ -136,7 +136,10 @@ def check_image(ctx, data):
             if g['last'] >= len(data) // 512:
                 ctx.violate(('gpt/primary.last-usable-beyond-disk',), 'last usable %d, disk has %d sectors' % (g['last'], len(data) // 512), fatal=False)
             ents = g['entries']
-            efi_ents = [(i, e) for i, e in enumerate(m.eltorito['entries']) if i > 0 and e.get('efi')]
+            vplat = m.eltorito.get('platform') or 0
+            # El Torito images whose (effective) platform id is 0xEF: sections added with efi=True, and every
+            # entry that inherits a validation platform of 0xEF
+            efi_ents = [(i, e) for i, e in enumerate(m.eltorito['entries']) if (e.get('efi') and i > 0) or vplat == 0xef]
             if len(efi_ents) >= 2:
                 ctx.probes['efi_two_sections'] += 1
             if ents:
